@@ -9,9 +9,11 @@ for d in /tmp/wt$r-C*/seeded/[1234]; do
   c=$(echo $d | sed "s#/tmp/wt$r-\(C[0-9]*\)/seeded/.*#\1#"); i=$(basename $d)
   [ -d /verif/seeded/$c-r$r-$i ] || echo "tools/seedeval.py $d $c-r$r-$i $c"
 done
-for d in /tmp/wtB-C*/seeded/[123]; do
+for B in B B2; do
+for d in /tmp/wt$B-C*/seeded/[123]; do
   [ -f $d/patch.diff ] && [ -f $d/meta.json ] || continue
-  c=$(echo $d | sed "s#/tmp/wtB-\(C[0-9]*\)/seeded/.*#\1#"); i=$(basename $d)
-  [ -d /verif/benign/B-$c-$i ] || echo "tools/benigneval.py $d B-$c-$i"
+  c=$(echo $d | sed "s#/tmp/wt$B-\(C[0-9]*\)/seeded/.*#\1#"); i=$(basename $d)
+  [ -d /verif/benign/$B-$c-$i ] || echo "tools/benigneval.py $d $B-$c-$i"
+done
 done
 } | xargs -P 3 -I{} sh -c '{} 2>&1 | tail -1'
